@@ -1,4 +1,6 @@
 import Casket.Proofs.AutoHTTPS
+import Casket.Proofs.AutoHTTPSRedirect
+import Casket.Proofs.AutoHTTPSSites
 /-
 C15 — Automatic HTTPS is applied exactly to qualifying sites, with redirects.
 
@@ -86,5 +88,128 @@ theorem C15_qualify_model_verdict_ok (c : Site) (hm : c.managed = false) :
     simp only [Bool.or_eq_true, Bool.not_eq_true', not_or, Bool.not_eq_false] at hs
     rw [C15_managed_iff_qualifies c hs.1 hs.2 hm]
     cases AutoHTTPSSpec.qualifies c <;> simp
+
+/-! ### plain-HTTP declarations and managed sites through the whole pipeline -/
+
+/-- The pipeline (mark, enable, make redirects, MakeServers) returns the declared sites, each taken through its own
+stages and in order, followed by the synthesised redirect sites (which MakeServers leaves unchanged). -/
+theorem C15_pipeline_shape (ds : List Site) :
+    pipeline ds = ds.map (fun d => stageF (stageE d)) ++ redirsGo (ds.map stageE) (ds.map stageE) 0 [] :=
+  pipeline_eq ds
+
+/-- Sites declared as plain HTTP (scheme http or port 80) are never marked managed and never have TLS enabled at the end
+of the pipeline — whatever the host, the bind value and the tls directive (which may have set Enabled). -/
+theorem C15_http_sites_never_tls (ds : List Site) (i : Nat) (d : Site) (hd : ds[i]? = some d) (hm : d.managed = false)
+    (hh : declaredHTTP d.scheme d.port = true) :
+    (markOne d).managed = false ∧ ((pipeline ds)[i]?).map (·.enabled) = some false := by
+  have h := http_site_no_tls d hm hh
+  refine ⟨h.1, ?_⟩
+  have hi : i < ds.length := by
+    rcases Nat.lt_or_ge i ds.length with h | h
+    · exact h
+    · rw [List.getElem?_eq_none h] at hd; cases hd
+  rw [pipeline_eq, List.getElem?_append_left (by simpa using hi), List.getElem?_map, hd]
+  simp [h.2]
+
+example : declaredHTTP b!"http" b!"80" = true ∧ declaredHTTP b!"" b!"80" = true ∧ declaredHTTP b!"https" b!"443" = false := by decide
+
+/-- A site marked managed is served over TLS at the end of the pipeline. -/
+theorem C15_managed_sites_serve_tls (d : Site) (hf : Fresh d) (hm : (markOne d).managed = true) :
+    (stageF (stageE d)).enabled = true := managed_site_tls d hf hm
+
+example : Fresh { host := b!"example.com" } ∧ (markOne { host := b!"example.com" }).managed = true := by
+  refine ⟨⟨rfl, rfl, rfl, by decide⟩, by decide⟩
+
+/-! ### redirect synthesis (makePlaintextRedirects), for every list of sites -/
+
+/-- SOUNDNESS: every synthesised site is `redirPlaintextHost c` of a declared site `c` that has TLS on, no_redirect off and is
+not declared as plain HTTP (so no redirect ever points back at an HTTP address), and no declared site of that host sits on
+the HTTP port (a declared plaintext site is never shadowed). -/
+theorem C15_redirect_sites_sound (e : List Site) (r : Site) (hr : r ∈ redirsGo e e 0 []) :
+    ∃ (k : Nat) (c : Site), e[k]? = some c ∧ wantsRedirect c = true ∧ r = redirPlaintextHost c ∧ NoPlain e c.host := by
+  obtain ⟨k, c, _, h1, h2, h3, h4⟩ := (inv_final e).sound r hr
+  exact ⟨k, c, h1, h2, h3, h4⟩
+
+/-- At most one redirect site per host. -/
+theorem C15_redirect_sites_one_per_host (e : List Site) : ((redirsGo e e 0 []).map (·.host)).Nodup :=
+  (inv_final e).nodup
+
+/-- The redirect of the site synthesised for `c` goes to the port `c` is finally served on — its explicit port, else 443 for
+managed / on-demand certificates, else the default port — and that port is written empty exactly when it is 443. -/
+theorem C15_redirect_target_port (c : Site) (hman : c.hasManager = true) (hw : wantsRedirect c = true) :
+    ∃ t, (redirPlaintextHost c).redir = some t ∧ portSuffixOK t (stageF c).port = true ∧ (stageF c).enabled = true := by
+  obtain ⟨t, h1, h2⟩ := redirect_target_port c hman hw
+  refine ⟨t, h1, h2, ?_⟩
+  rw [stageF_enabled]
+  unfold wantsRedirect at hw
+  simp only [Bool.and_eq_true, bne_iff_ne, ne_eq] at hw
+  simp [hw.1.1.1, hw.1.2, hw.2]
+
+example : wantsRedirect { host := b!"example.com", enabled := true, manual := true } = true ∧
+    (redirPlaintextHost { host := b!"example.com", enabled := true, manual := true }).redir = some b!"2015" := by decide
+
+/-- COMPLETENESS, partial: an HTTPS site that wants a redirect and whose host has no declared site on the HTTP port is
+covered by a synthesised site of its host — unless it is not on port 443 itself while another site of its host is, and that
+site makes no redirect (TLS off / no_redirect / plain HTTP).  Excluded: exactly finding C15-redirect-deferred-to-443-sibling. -/
+theorem C15_redirect_complete_partial (e : List Site) (k : Nat) (c : Site) (hk : e[k]? = some c)
+    (hw : wantsRedirect c = true) (hnp : NoPlain e c.host) :
+    Covered (redirsGo e e 0 []) c.host ∨ Blocked e k c := by
+  have hlt : k < e.length := by
+    rcases Nat.lt_or_ge k e.length with h | h
+    · exact h
+    · rw [List.getElem?_eq_none h] at hk; cases hk
+  rcases (inv_final e).complete k c hlt hk hw hnp with h | h | ⟨j, cj, hj, hcj, _⟩
+  · exact Or.inl h
+  · exact Or.inr h
+  · rw [List.getElem?_eq_none hj] at hcj; cases hcj
+
+/-- the two sites of the witness: `a:443` with no_redirect, `a:5001` -/
+def witnessSites : List Site :=
+  [{ host := b!"a", port := b!"443", scheme := b!"https", enabled := true, noRedirect := true },
+   { host := b!"a", port := b!"5001", enabled := true }]
+
+/-- …and the code (as modelled, confirmed on the real code by stream c15.sites) does leave such a site without redirect:
+`a:443 { tls { no_redirect } }` + `a:5001`. -/
+theorem C15_redirect_complete_fails_witness :
+    ∃ c, witnessSites[1]? = some c ∧ wantsRedirect c = true ∧ NoPlain witnessSites c.host ∧
+      makePlaintextRedirects witnessSites = witnessSites := by
+  refine ⟨_, rfl, by decide, ?_, by decide⟩
+  intro c hc
+  simp only [witnessSites, List.mem_cons, List.not_mem_nil, or_false] at hc
+  rcases hc with rfl | rfl <;> decide
+
+/-- THE SITE-SET VERDICT (stream c15.sites), partial: applied to what the model pipeline shows, the judged predicate
+`sitesVerdict` — managed ⇔ qualifies, managed ⇒ TLS, plain HTTP ⇒ no TLS, every synthesised site a plain port-80 site for a host
+without plaintext site whose redirect goes to an HTTPS site of that host on the right port, one per host, every HTTPS site
+covered — answers "ok", or the one verdict class of finding C15-redirect-deferred-to-443-sibling.  For all lists of fresh sites. -/
+theorem C15_sites_model_verdict_partial (ds : List Site) (hf : ∀ d ∈ ds, Fresh d) :
+    let v := sitesVerdict (ds.map observeSite) ((redirsGo (ds.map stageE) (ds.map stageE) 0 []).map observeRedirect)
+    v = "ok" ∨ v = "bad:redirect-missing-443-sibling:an HTTPS site has no redirect site because a site of the same host on port 443 (which produces no redirect itself) is preferred" :=
+  sites_verdict ds hf
+
+/-- Sites built the way the harness and the Casketfile front end build them are fresh. -/
+theorem C15_siteOf_fresh (a : Address) (bind : Bytes) (v : TLSVariant) : Fresh (siteOf a bind v) := by
+  unfold siteOf applyTLS Fresh
+  cases hb : v.base <;> cases hn : v.noRedirect <;> cases ho : v.onDemand <;> simp
+
+/-! ### the answer of a synthesised site -/
+
+/-- %-decoding the default encoding of a path gives the path back (net/url escape / unescape in path mode). -/
+theorem C15_escape_roundtrip (p : Bytes) : unescapePath (escapePath p) = some p := unescape_escape p
+
+/-- THE REDIRECT ANSWER (stream c15.redirect): for every port of the HTTPS site, every Host header in scope and every request
+target net/http can parse (origin-form or "*"), the handler answers 301 with
+Location = https://<same host, IPv6 literal in brackets>[:port unless 443]<same path (equal after %-decoding) and query>. -/
+theorem C15_redirect_location (port hdr target uri : Bytes) (hu : requestURI target = .ok uri) :
+    redirectVerdict port hdr target redirStatus (redirLocation (capturedPort port) hdr uri) = "ok" :=
+  redirect_verdict_ok port hdr target uri hu
+
+example : hostHeaderInScope b!"[::1]:80" = true ∧ requestURI b!"/a%2Fb?x=1" = .ok b!"/a%2Fb?x=1" ∧
+    redirLocation (capturedPort b!"8443") b!"[::1]:80" b!"/a%2Fb?x=1" = b!"https://[::1]:8443/a%2Fb?x=1" ∧
+    redirLocation (capturedPort b!"443") b!"example.com:80" b!"/" = b!"https://example.com/" := by decide
+
+/-- The port captured for a site (default flags) is what `redirPlaintextHost` stores. -/
+theorem C15_captured_port (p : Bytes) : (redirPlaintextHost { port := p }).redir = some (capturedPort p) := by
+  unfold redirPlaintextHost; simp
 
 end Casket.Props.C15
